@@ -55,6 +55,9 @@ def N(ix, v, depth=40):
                 # x + (-y) is x - y ; x - (-y) is x + y (how `-=` and Sub are written in terms of Add)
                 if opn in ("iadd", "isub") and b[0] == "inv":
                     return ("isub" if opn == "iadd" else "iadd", a, b[1])
+                if opn in ("iadd", "isub") and b[0] == "neg":
+                    # x + (−u) is x − (+u): adding a negative literal operand and subtracting the positive one are one form
+                    return ("isub" if opn == "iadd" else "iadd", a, ("pos", b[1]))
                 return (opn, a, b)
             if last == "abs":
                 return ("abs", N(ix, ks[0], depth - 1))
